@@ -83,8 +83,8 @@ impl Property for C15 {
     }
     fn cases(&self, tier: Tier) -> u64 {
         match tier {
-            Tier::Quick => 30_000,
-            Tier::Thorough => 1_000_000,
+            Tier::Quick => 300000,
+            Tier::Thorough => 5000000,
         }
     }
     fn decode(&mut self, tape: &TapeVal) -> Case {
